@@ -13,19 +13,28 @@ use crate::engine::verif_root;
 use crate::refhttp::req::parse_request;
 use crate::transport::Ev;
 
+/// `<name>.<ext>` among the committed fixtures, or next to an absolute path prefix (certificates made at run time).
+fn fixture_path(name: &str, ext: &str) -> std::path::PathBuf {
+    if name.starts_with('/') {
+        std::path::PathBuf::from(format!("{name}.{ext}"))
+    } else {
+        verif_root().join("fixtures/certs").join(format!("{name}.{ext}"))
+    }
+}
+
 pub fn load_certs(name: &str) -> Vec<CertificateDer<'static>> {
-    let path = verif_root().join("fixtures/certs").join(format!("{name}.pem"));
+    let path = fixture_path(name, "pem");
     let data = std::fs::read(&path).unwrap_or_else(|e| panic!("fixture {}: {e}", path.display()));
     rustls_pemfile::certs(&mut &data[..]).map(|c| c.expect("pem")).collect()
 }
 
 pub fn load_pem_bytes(name: &str) -> Vec<u8> {
-    let path = verif_root().join("fixtures/certs").join(format!("{name}.pem"));
+    let path = fixture_path(name, "pem");
     std::fs::read(&path).unwrap_or_else(|e| panic!("fixture {}: {e}", path.display()))
 }
 
 pub fn load_key(name: &str) -> PrivateKeyDer<'static> {
-    let path = verif_root().join("fixtures/certs").join(format!("{name}.key"));
+    let path = fixture_path(name, "key");
     let data = std::fs::read(&path).unwrap_or_else(|e| panic!("fixture {}: {e}", path.display()));
     rustls_pemfile::private_key(&mut &data[..]).expect("pem").expect("a private key")
 }
